@@ -2,8 +2,11 @@ import Amgcl.Proofs.KrylovCGModel
 import Amgcl.Proofs.KrylovCGExample
 import Amgcl.Proofs.KrylovGMRESRun
 import Amgcl.Proofs.KrylovGMRESExample
+import Amgcl.Proofs.KrylovFGMRES
+import Amgcl.Proofs.KrylovFGMRESExample
 /-!
-# C05 (second part) — the optimality clauses: CG conjugacy / A-norm optimality / finite termination
+# C05 (second part) — the optimality clauses: CG conjugacy / A-norm optimality / finite termination;
+GMRES and FGMRES least-squares meaning, residual minimisation and monotonicity (second half of the file)
 
 Subject: the CG MODEL `Model/SolverCG.lean` (cg.hpp:153-204 statement by statement; right preconditioning as coded,
 total division `x/0 = 0`), inner product `stdIp` (the backend's serial inner product).
@@ -395,5 +398,100 @@ example : (match GMRES.solve prmg stdIp Amgcl.rsqrt 0 Ag Pg (GMRES.Work.fresh 3)
       | _ => false) = true := by decide +kernel
 
 end nonvacuousGmres
+
+/-! ## FGMRES: the same least-squares meaning, for an ARBITRARY preconditioner function
+
+Subject: one restart cycle of the FGMRES MODEL `Model/SolverFGMRES.lean` (fgmres.hpp:184-234).  Its Arnoldi–Givens process
+is the one of right-preconditioned GMRES on the same work arrays (`fsim`: the two inner loops agree in `j, iter, inner_res,
+H, s, cs, sn, v`, and `z_i = P v_i`), and the update is `x += Σ y_i z_i`; therefore NOTHING is assumed about `P` beyond
+`(P u).size = n` — it may be non-linear and need not be the same map in every application in the sense that only the
+stored `z_i` enter.  `fInnerPass sqrt A P st j` is the inner-loop state after `j` passes, `fCycleIterate … j` the `x` of
+`FGMRES.update`, `toG st` the simulating GMRES state; root / breakdown hypotheses are those of the simulating run (the
+two loops apply `sqrt` to the same numbers). -/
+section fgmres
+variable {K : Type} [Field K] [LinearOrder K] [IsStrictOrderedRing K]
+
+/-- the inner loop of the model ends in `fInnerPass … j` (`j ≥ 1` its own pass count), the cycle returns
+`fCycleIterate … j`, and `inner_res = |s_j|` -/
+theorem fgmres_cycle_returns_iterate (prm : FGMRES.Params K) (sqrt : K → K) (A : CRS K) (P : Vec K → Vec K) (epsT : K)
+    (st : FGMRES.St K) :
+    FGMRES.inner prm stdIp sqrt A P epsT st = fInnerPass sqrt A P st (FGMRES.inner prm stdIp sqrt A P epsT st).j ∧
+    1 ≤ (FGMRES.inner prm stdIp sqrt A P epsT st).j ∧
+    (FGMRES.cycle prm stdIp sqrt A P epsT st).x
+      = fCycleIterate sqrt A P st (FGMRES.inner prm stdIp sqrt A P epsT st).j ∧
+    ∀ j, (fInnerPass sqrt A P st (j + 1)).innerRes
+      = Solver.absK ((fInnerPass sqrt A P st (j + 1)).w.h.s.get (j + 1)) :=
+  ⟨(finner_eq prm sqrt A P epsT st).1, (finner_eq prm sqrt A P epsT st).2.1, (finner_eq prm sqrt A P epsT st).2.2,
+    fun j => fInnerPass_innerRes sqrt A P st j⟩
+
+variable (n : ℕ) (A : CRS K) (hA : A.WF) (hn : A.nrows = n) (hm : A.ncols = n)
+  (P : Vec K → Vec K) (hPsz : ∀ u, (P u).size = n) (sqrt : K → K) (f : Vec K) (st : FGMRES.St K)
+  (hst : FCycleStart sqrt A f st) (hx : st.x.size = n)
+include hA hn hm hPsz hst hx
+
+/-- **least-squares identity for FGMRES**: for every `y`, `‖f − A (x₀ + Σ_{i<j} y_i z_i)‖² = Σ_{a<j} (s_a − (R y)_a)² + s_j²` -/
+theorem fgmres_least_squares (j : ℕ) (hroots : RootsExact .right sqrt A P (toG st) j)
+    (hnb : ∀ i, i < j → arnoldiNorm .right sqrt A P (toG st) i ≠ 0) (y : ℕ → K) :
+    (vecOf n f - matOf A n n *ᵥ (vecOf n st.x
+        + ∑ i ∈ Finset.range j, y i • vecOf n ((fInnerPass sqrt A P st j).w.z.get i)))
+      ⬝ᵥ (vecOf n f - matOf A n n *ᵥ (vecOf n st.x
+        + ∑ i ∈ Finset.range j, y i • vecOf n ((fInnerPass sqrt A P st j).w.z.get i)))
+    = ∑ a ∈ Finset.range j, ((fInnerPass sqrt A P st j).w.h.s.get a
+          - ∑ i ∈ Finset.Ico a j, (fInnerPass sqrt A P st j).w.h.H.get a i * y i)
+        * ((fInnerPass sqrt A P st j).w.h.s.get a
+          - ∑ i ∈ Finset.Ico a j, (fInnerPass sqrt A P st j).w.h.H.get a i * y i)
+      + (fInnerPass sqrt A P st j).w.h.s.get j * (fInnerPass sqrt A P st j).w.h.s.get j :=
+  fcycle_ls n A hA hn hm P hPsz sqrt f st hst hx j hroots hnb y
+
+/-- **the residual estimate of FGMRES is the true residual norm, and the iterate minimises it over
+`x₀ + span{z_0..z_{j-1}}`**: `‖f − A x_j‖² = s_j²`, `x_j = x₀ + Σ y_i z_i`, and no other combination of the `z_i` does
+better. -/
+theorem fgmres_minimises_residual (j : ℕ) (hroots : RootsExact .right sqrt A P (toG st) j)
+    (hnb : ∀ i, i < j → arnoldiNorm .right sqrt A P (toG st) i ≠ 0) :
+    stdIp (residual f A (fCycleIterate sqrt A P st j)) (residual f A (fCycleIterate sqrt A P st j))
+      = (fInnerPass sqrt A P st j).w.h.s.get j * (fInnerPass sqrt A P st j).w.h.s.get j ∧
+    (∃ y : ℕ → K, vecOf n (fCycleIterate sqrt A P st j) = vecOf n st.x
+      + ∑ i ∈ Finset.range j, y i • vecOf n ((fInnerPass sqrt A P st j).w.z.get i)) ∧
+    ∀ y : ℕ → K,
+      stdIp (residual f A (fCycleIterate sqrt A P st j)) (residual f A (fCycleIterate sqrt A P st j))
+        ≤ (vecOf n f - matOf A n n *ᵥ (vecOf n st.x
+            + ∑ i ∈ Finset.range j, y i • vecOf n ((fInnerPass sqrt A P st j).w.z.get i)))
+          ⬝ᵥ (vecOf n f - matOf A n n *ᵥ (vecOf n st.x
+            + ∑ i ∈ Finset.range j, y i • vecOf n ((fInnerPass sqrt A P st j).w.z.get i))) :=
+  ⟨fcycle_residual n A hA hn hm P hPsz sqrt f st hst hx j hroots hnb,
+   ⟨_, fCycleIterate_vec n A hn P hPsz sqrt st hx j⟩,
+   fun y => fcycle_minimal n A hA hn hm P hPsz sqrt f st hst hx j hroots hnb y⟩
+
+/-- **`fgmres_residual_antitone`**: `‖f − A x_{j+1}‖² ≤ ‖f − A x_j‖²` within a cycle -/
+theorem fgmres_residual_antitone (j : ℕ) (hroots : RootsExact .right sqrt A P (toG st) (j + 1))
+    (hnb : ∀ i, i < j + 1 → arnoldiNorm .right sqrt A P (toG st) i ≠ 0) :
+    stdIp (residual f A (fCycleIterate sqrt A P st (j + 1))) (residual f A (fCycleIterate sqrt A P st (j + 1)))
+      ≤ stdIp (residual f A (fCycleIterate sqrt A P st j)) (residual f A (fCycleIterate sqrt A P st j)) :=
+  fcycle_antitone n A hA hn hm P hPsz sqrt f st hst hx j hroots hnb
+
+end fgmres
+
+/-! ### non-vacuity over `ℚ` with `rsqrt`: the system of the GMRES example with the NON-LINEAR preconditioner function
+`Pc u = (u₀³, u₁³, u₂³)` (`hPc_nonlinear`; data and hypotheses in `Proofs/KrylovFGMRESExample.lean`) -/
+section nonvacuousFgmres
+open Amgcl.Krylov.ExG Amgcl.Krylov.ExF
+
+example : stdIp (residual fg Ag (fCycleIterate Amgcl.rsqrt Ag Pc stf 2)) (residual fg Ag (fCycleIterate Amgcl.rsqrt Ag Pc stf 2))
+    = (fInnerPass Amgcl.rsqrt Ag Pc stf 2).w.h.s.get 2 * (fInnerPass Amgcl.rsqrt Ag Pc stf 2).w.h.s.get 2 :=
+  (fgmres_minimises_residual 3 Ag hAg rfl rfl Pc hPc Amgcl.rsqrt fg stf hstf hxf 2 hrootsf hnbf).1
+
+example : stdIp (residual fg Ag (fCycleIterate Amgcl.rsqrt Ag Pc stf 2)) (residual fg Ag (fCycleIterate Amgcl.rsqrt Ag Pc stf 2))
+    ≤ stdIp (residual fg Ag (fCycleIterate Amgcl.rsqrt Ag Pc stf 1)) (residual fg Ag (fCycleIterate Amgcl.rsqrt Ag Pc stf 1)) :=
+  fgmres_residual_antitone 3 Ag hAg rfl rfl Pc hPc Amgcl.rsqrt fg stf hstf hxf 1 hrootsf hnbf
+
+/-- independent evaluation by the kernel: `s₂ = 16`, `‖f − A x₂‖² = 256`, and the model's call with `maxiter = 2` returns
+that iterate after 2 iterations with reported residual `16/25` -/
+example : (fInnerPass Amgcl.rsqrt Ag Pc stf 2).w.h.s.get 2 = 16 ∧
+    stdIp (residual fg Ag (fCycleIterate Amgcl.rsqrt Ag Pc stf 2)) (residual fg Ag (fCycleIterate Amgcl.rsqrt Ag Pc stf 2)) = 256 ∧
+    (match FGMRES.solve prmf stdIp Amgcl.rsqrt 0 Ag Pc (FGMRES.Work.fresh 3) fg xg with
+      | .ok (it, res, x, _) => decide (it = 2 ∧ res = 16/25 ∧ x = fCycleIterate Amgcl.rsqrt Ag Pc stf 2)
+      | _ => false) = true := by decide +kernel
+
+end nonvacuousFgmres
 
 end Amgcl.C05b
